@@ -299,6 +299,21 @@ def lex_case(dt, lex):
     again = str.__str__(Literal(norm, datatype=dturi))
     if again != norm:
         out.append(("normalisation|%s|not-idempotent|%s" % (fam, cls), {"datatype": dt, "lexical": lex, "normalised": norm, "again": again}))
+    # the normalize() method, on the literal as created and on one created with normalize=False
+    for how, src in (("created", lit), ("unnormalised", Literal(lex, datatype=dturi, normalize=False))):
+        try:
+            n1 = src.normalize()
+            n2 = n1.normalize()
+        except Exception as e:  # noqa: BLE001
+            out.append(("normalisation|%s|normalize()-raises|%s" % (fam, type(e).__name__), {"datatype": dt, "lexical": lex, "on": how, "exc": repr(e)[:200]}))
+            continue
+        f1, f2 = str.__str__(n1), str.__str__(n2)
+        if n1.datatype != dturi or n1.ill_typed is True or (dt not in X.STRINGY and not X.valid(dturi, f1)):
+            out.append(("normalisation|%s|normalize()-gives-invalid-literal|%s" % (fam, cls), {"datatype": dt, "lexical": lex, "on": how, "normalised": f1, "datatype_after": str(n1.datatype)}))
+        elif want is not X.UNREP and not X.same_value(want, n1.value):
+            out.append(("normalisation|%s|normalize()-changes-value|%s" % (fam, cls), {"datatype": dt, "lexical": lex, "on": how, "normalised": f1, "value": repr(n1.value)}))
+        elif f2 != f1 or n2.datatype != n1.datatype:
+            out.append(("normalisation|%s|normalize()-not-idempotent|%s" % (fam, cls), {"datatype": dt, "lexical": lex, "on": how, "normalised": f1, "again": f2}))
     # the same lexical form handed over as bytes is the same literal
     try:
         lb = Literal(lex.encode("utf-8"), datatype=dturi)
